@@ -286,8 +286,8 @@ def data_class(t, vals):
     """predicate naming the class of values involved (for signatures)"""
     t = np.dtype(t)
     if t.kind in "iu" and t.itemsize == 8:
-        big = np.abs(vals.astype(np.float64)) > 2.0 ** 53
-        return "int64_above_2p53" if big.any() else "int64_small"
+        big = any(abs(int(v)) > 2 ** 53 for v in np.asarray(vals).flat)
+        return "int64_above_2p53" if big else "int64_small"
     return t.kind + str(8 * t.itemsize)
 
 
@@ -699,6 +699,7 @@ def body(ctx):
         a.data = vals
         b = a.clone()
         before_a = a.data.copy()
+        before_b = b.data.copy()
         ops = []
         touched = {"A": False, "B": False}
         obj = {"A": a, "B": b}
@@ -723,9 +724,9 @@ def body(ctx):
                 ctx.finding("clone/not_independent", "writing to the clone changed the original", {"dtype": tname, "ops": ops})
         case = {"op": "store", "dtype": tname, "shape": [nr, nc], "ops": ops}
         ask(f"store {fmt_mat(vals)} " + " ".join(ops), "plain", fmt_mat(a.data) + " " + fmt_mat(b.data), case)
-        if not touched["B"] and b.data.tobytes() != vals.tobytes():
+        if not touched["B"] and b.data.tobytes() != before_b.tobytes():
             ctx.finding("clone/not_independent", "writing to the original changed the clone", case)
-        if not touched["A"] and a.data.tobytes() != vals.tobytes():
+        if not touched["A"] and a.data.tobytes() != before_a.tobytes():
             ctx.finding("clone/not_independent", "writing to the clone changed the original", case)
         ctx.count(("store", tname, tuple(ops)), True, "clone/store")
 
